@@ -188,9 +188,21 @@ def mutate(core, rng, v, m, placed, kind, node):
                 for r in tables.segments(v)[c.name]:
                     if r.card[0] >= 1 and r.ok and r.card[1] != 0 and not (c.name == 'MSH' and r.num in (1, 2, 9, 12)):
                         cands.append(('field', el, r.name, None))
+        # field level: a required component of a populated complex field
+        for parent, c, el, path in placed:
+            if c.kind != 'SEG':
+                continue
+            for r in tables.segments(v)[c.name]:
+                if r.kind == 'sequence' and r.ok and len(el.children.indexes.get(r.name, [])) == 1:
+                    f = el.children.indexes[r.name][0]
+                    for cr in tables.components(v, r.datatype):
+                        if cr.card[0] >= 1 and cr.ok and len(f.children.indexes.get(cr.name, [])) == 1 and \
+                                len(f.children.list) > 1:
+                            cands.append(('component', f, cr.name, None))
         if not cands:
             return None
-        what, parent, cname, el = rng.choice(cands)
+        comp = [x for x in cands if x[0] == 'component']
+        what, parent, cname, el = rng.choice(comp) if comp and rng.random() < 0.3 else rng.choice(cands)
         lst = parent.children.indexes.get(cname, [])
         if len(lst) != 1:
             return None
@@ -206,9 +218,24 @@ def mutate(core, rng, v, m, placed, kind, node):
                     if r.card[1] == 1 and r.ok and el.children.indexes.get(r.name) and \
                             not (c.name == 'MSH' and r.num in (1, 2)):
                         cands.append(('field', el, r, None))
+        for parent, c, el, path in placed:
+            if c.kind != 'SEG':
+                continue
+            for r in tables.segments(v)[c.name]:
+                if r.kind == 'sequence' and r.ok and len(el.children.indexes.get(r.name, [])) == 1:
+                    f = el.children.indexes[r.name][0]
+                    for cr in tables.components(v, r.datatype):
+                        if cr.card[1] == 1 and cr.ok and cr.kind == 'leaf' and f.children.indexes.get(cr.name):
+                            cands.append(('component', f, cr, None))
         if not cands:
             return None
-        what, parent, c, el = rng.choice(cands)
+        comp = [x for x in cands if x[0] == 'component']
+        what, parent, c, el = rng.choice(comp) if comp and rng.random() < 0.3 else rng.choice(cands)
+        if what == 'component':
+            extra = core.Component(c.name, version=v)
+            extra.value = gen.witness(v, c.datatype)
+            parent.add(extra)
+            return [c.name], 'second %s in field %s' % (c.name, parent.name)
         if what == 'child':
             add_child(parent, c, v, 'required', [], ())
             return [c.name], 'second %s under %s' % (c.name, parent.name)
